@@ -317,6 +317,12 @@ def evalFn (name : String) (cp : Nat) : Option String :=
   | "zwnj_a2" => if sc then some (fmtCtx (applyRule .zwnj [0x626, 0x200C, 0x5BF, cp, 0x626] 1)) else none
   | "spec_zwnj_b2" => if sc then some (if Spec.cond .zwnj [0x626, cp, 0x5BF, 0x200C, 0x626] 3 then "ok:true" else "ok:false") else none
   | "spec_zwnj_a2" => if sc then some (if Spec.cond .zwnj [0x626, 0x200C, 0x5BF, cp, 0x626] 1 then "ok:true" else "ok:false") else none
+  | "kat_with" => if sc then some (fmtCtx (applyRule .katakana [0x30FB, cp] 0)) else none
+  | "arab_with" => if sc then some (fmtCtx (applyRule .arabic [0x660, cp] 0)) else none
+  | "extarab_with" => if sc then some (fmtCtx (applyRule .extArabic [0x6F0, cp] 0)) else none
+  | "spec_kat_with" => if sc then some (if Spec.cond .katakana [0x30FB, cp] 0 then "ok:true" else "ok:false") else none
+  | "spec_arab_with" => if sc then some (if Spec.cond .arabic [0x660, cp] 0 then "ok:true" else "ok:false") else none
+  | "spec_extarab_with" => if sc then some (if Spec.cond .extArabic [0x6F0, cp] 0 then "ok:true" else "ok:false") else none
   | "zs" => if sc then some (bS (isSpaceSeparator cp)) else none
   | "nonascii_zs" => if sc then some (bS (isNonAsciiSpace cp)) else none
   | "std_upper" => if sc then some (bS (isUppercase cp)) else none
